@@ -930,6 +930,13 @@ def glue_greenback() -> None:
                 "frame"
             )
 
+    if hasattr(greenback._impl, "_greenback_shim_sync"):  # pragma: no branch
+        # with_portal_run_sync() runs its portal in a different generator,
+        # which needs the same treatment
+        elaborate_frame.register(
+            greenback._impl._greenback_shim_sync, elaborate_greenback_shim
+        )
+
     @elaborate_frame.register(greenback.await_)
     def elaborate_greenback_await(frame: Frame, next_inner: object) -> object:
         frame.hide = True
